@@ -552,6 +552,13 @@ def _closure_expr(fdef):
         return None
     if any(isinstance(n, (ast.Yield, ast.YieldFrom, ast.Nonlocal, ast.Global)) for n in walk_own(fdef)):
         return None
+    # the value alone must be the whole meaning of a call: a path that raises (a refusal), asserts or runs a statement for its
+    # effect would be lost by replacing the call with the returned expression
+    for n in walk_own(fdef):
+        if isinstance(n, (ast.Raise, ast.Assert, ast.For, ast.While, ast.With, ast.Try, ast.Delete, ast.AugAssign)):
+            return None
+        if isinstance(n, ast.Expr) and not (isinstance(n.value, ast.Constant) and isinstance(n.value.value, str)):
+            return None
     ps = path_returns(fdef, max_paths=16)
     if not ps or any(r is None for _, r in ps):
         return None
@@ -682,6 +689,113 @@ def inline_closures(fnode):
             return n
     T().visit(fnode)
     return changed[0]
+
+
+def splice_statement_closures(fnode, counter):
+    """def g(p): BODY   (a local procedure: bound once at the top level of the function, no return value, no yield, no nonlocal /
+    global, not recursive, every use of g is a call in statement position after the definition)  ->  each `g(a)` becomes
+    `p' = a; BODY[p := p']` with the closure's own locals renamed per site; the definition is dropped.  Captured variables are read
+    at the call, exactly as the closure would."""
+    changed = False
+    for d in [st for st in fnode.body if isinstance(st, ast.FunctionDef)]:
+        a = d.args
+        if d.decorator_list or a.vararg or a.kwarg or a.kwonlyargs or a.posonlyargs:
+            continue
+        inner = list(ast.walk(ast.Module(body=d.body, type_ignores=[])))
+        if any(isinstance(x, (ast.Return, ast.Yield, ast.YieldFrom, ast.Await, ast.Nonlocal, ast.Global, ast.FunctionDef, ast.Lambda, ast.ClassDef)) for x in inner):
+            continue
+        if any(isinstance(x, ast.Name) and x.id == d.name for x in inner):
+            continue
+        uses = [x for x in ast.walk(fnode) if isinstance(x, ast.Name) and x.id == d.name]
+        par = {}
+        for n in ast.walk(fnode):
+            for c in ast.iter_child_nodes(n):
+                par[c] = n
+        sites = []
+        ok = True
+        for u in uses:
+            c = par.get(u)
+            e = par.get(c)
+            if not (isinstance(u.ctx, ast.Load) and isinstance(c, ast.Call) and c.func is u and isinstance(e, ast.Expr) and e.value is c
+                    and not any(isinstance(x, ast.Starred) for x in c.args) and not any(k.arg is None for k in c.keywords)):
+                ok = False
+                break
+            if getattr(e, "lineno", 0) <= getattr(d, "lineno", 0):
+                ok = False
+                break
+            # not inside another nested function
+            q = e
+            while q in par and par[q] is not fnode:
+                q = par[q]
+                if isinstance(q, (ast.FunctionDef, ast.Lambda, ast.ClassDef)):
+                    ok = False
+                    break
+            sites.append((e, c))
+        if not ok or not sites:
+            continue
+        params = [x.arg for x in a.args]
+        defaults = dict(zip(params[len(params) - len(a.defaults):], a.defaults))
+        own = set()
+        for x in inner:
+            if isinstance(x, ast.Name) and isinstance(x.ctx, (ast.Store, ast.Del)):
+                own.add(x.id)
+        plan = {}
+        for e, c in sites:
+            b = dict(zip(params, c.args))
+            bad = len(c.args) > len(params)
+            for k in c.keywords:
+                if k.arg not in params or k.arg in b:
+                    bad = True
+                else:
+                    b[k.arg] = k.value
+            for p_ in params:
+                if p_ not in b:
+                    if p_ in defaults and isinstance(defaults[p_], ast.Constant):
+                        b[p_] = defaults[p_]
+                    else:
+                        bad = True
+            if bad:
+                plan = None
+                break
+            plan[id(e)] = b
+        if plan is None:
+            continue
+
+        def rewrite(stmts):
+            out = []
+            for st in stmts:
+                if id(st) in plan:
+                    k = counter[0]
+                    counter[0] += 1
+                    b = plan[id(st)]
+                    consts, ren = {}, {nm: f"{nm}__c{k}" for nm in own}
+                    for p_, v in b.items():
+                        if (_cheap(v) or isinstance(v, ast.Constant)) and p_ not in own:
+                            consts[p_] = v
+                        else:
+                            t = f"{p_}__c{k}"
+                            out.append(ast.copy_location(ast.Assign(targets=[ast.Name(id=t, ctx=ast.Store())], value=v, lineno=st.lineno), st))
+                            ren[p_] = t
+                    for bst in d.body:
+                        if isinstance(bst, ast.Expr) and isinstance(bst.value, ast.Constant) and isinstance(bst.value.value, str):
+                            continue
+                        nb = _Sub(consts, ren).visit(copy.deepcopy(bst))
+                        out.append(nb)
+                    continue
+                for fld in ("body", "orelse", "finalbody"):
+                    sub = getattr(st, fld, None)
+                    if isinstance(sub, list) and sub and isinstance(sub[0], ast.stmt) and not isinstance(st, (ast.FunctionDef, ast.AsyncFunctionDef, ast.ClassDef)):
+                        setattr(st, fld, rewrite(sub))
+                if isinstance(st, ast.Try):
+                    for h in st.handlers:
+                        h.body = rewrite(h.body)
+                out.append(st)
+            return out
+        fnode.body = [st for st in rewrite(fnode.body) if st is not d]
+        changed = True
+    if changed:
+        ast.fix_missing_locations(fnode)
+    return changed
 
 
 def _cheap(e):
@@ -1780,6 +1894,9 @@ def partial_evaluate(repo, max_rounds=8):
             if inline_closures(f.node):
                 ch = True
                 steps.append("closures")
+            if splice_statement_closures(f.node, counter):
+                ch = True
+                steps.append("procedures")
             if (steps or q in getattr(repo, "inlined", {})) and propagate_path_aliases(repo, f):
                 ch = True
                 steps.append("aliases")
